@@ -1,6 +1,7 @@
 package ech
 
 import (
+	"bytes"
 	"crypto/ecdh"
 	"crypto/rand"
 	"crypto/tls"
@@ -153,9 +154,36 @@ type CipherSuite struct {
 
 // Bytes returns the serialized version of the Encrypted Client Hello (ECH)
 // Config.
+// validPublicName reports whether name is a host name that clients accept as
+// public_name: a dot-separated sequence of at least two LDH labels. Clients
+// ignore configs with any other public name (Section 4).
+func validPublicName(name []byte) bool {
+	if len(name) > 253 {
+		return false
+	}
+	labels := bytes.Split(name, []byte("."))
+	if len(labels) < 2 {
+		return false
+	}
+	for _, l := range labels {
+		if len(l) == 0 || len(l) > 63 || l[0] == '-' || l[len(l)-1] == '-' {
+			return false
+		}
+		for _, c := range l {
+			if (c < '0' || c > '9') && (c < 'a' || c > 'z') && (c < 'A' || c > 'Z') && c != '-' {
+				return false
+			}
+		}
+	}
+	return true
+}
+
 func (c ConfigSpec) Bytes() (Config, error) {
 	if l := len(c.PublicName); l == 0 || l > 255 {
 		return nil, errors.New("invalid public name length")
+	}
+	if !validPublicName(c.PublicName) {
+		return nil, errors.New("invalid public name")
 	}
 	b := cryptobyte.NewBuilder(nil)
 	b.AddUint16(c.Version)
